@@ -93,7 +93,7 @@ def acceptance_sweep(run):
 
 
 FLOATS = [-434.4, -2.5, -0.75, -0.2, -0.0, 0.0, 0.2, 0.99, 3.5, 10.3, 2147483648.5, -2147483649.5, 9007199254740992.0, 1e15, None]
-INTS = [-2147483649, -129, -128, -1, 0, 1, 7, 127, 128, 32768, 2147483647, 2147483648, 9007199254740992, None]
+INTS = [-2147483649, -129, -128, -1, 0, 1, 7, 127, 128, 32768, 2147483647, 2147483648, 9007199254740992, 9007199254740993, None]
 STR_INT = ["0", "7", "-7", "+5", "007", "-0", "127", "128", "2147483648", "12x", " 5", "5 ", "", "1.5", None]
 STR_FLOAT = ["0", "1.5", "-2.25", "+0.5", "007.50", "1e3", ".5", "5.", "abc", " 1.5", None]
 BOOLS = [True, False, None]
@@ -129,6 +129,19 @@ def value_cases(tier):
                                       ["l5", cast(lit(7) | {"wrap": True}, "String")], ["l6", cast(lit(None) | {"wrap": True}, "Int64")],
                                       ["l7", cast(lit("2020-02-29", "date") | {"wrap": True}, "String")]], "literals")
 
+
+    # two casts nested in ONE expression: the result depends on the type of the intermediate value, not only on its value
+    yield prog("a", "Int64", INTS, [["i_f_s", cast(cast(a, "Float64"), "String")], ["i_f_i", cast(cast(a, "Float64"), "Int64")],
+                                    ["i_s_f", cast(cast(a, "String"), "Float64")],
+                                    ["i_i8_s", cast(cast(a, "Int8"), "String")]], "int->x->y")
+    yield prog("a", "Float64", FLOATS, [["f_i_s", cast(cast(a, "Int64"), "String")], ["f_i_f", cast(cast(a, "Int64"), "Float64")], ["f_s_f", cast(cast(a, "String"), "Float64")],
+                                        ["f_i_i8", cast(cast(a, "Int64"), "Int8")]], "float->x->y")  # (no narrowing to Float32: SQLite has one float width)
+    yield prog("a", "Bool", BOOLS, [["b_i_s", cast(cast(a, "Int64"), "String")], ["b_i_f", cast(cast(a, "Int64"), "Float64")], ["b_f_s", cast(cast(a, "Float64"), "String")],
+                                    ["b_f_i", cast(cast(a, "Float64"), "Int64")]], "bool->x->y")
+    yield prog("a", "String", STR_INT, [["s_i_f", cast(cast(a, "Int64"), "Float64")], ["s_i_s", cast(cast(a, "Int64"), "String")], ["s_f_s", cast(cast(a, "Float64"), "String")]], "str->x->y")
+    yield prog("a", "Date", DATES, [["d_dt_s", cast(cast(a, "Datetime"), "String")], ["d_dt_d", cast(cast(a, "Datetime"), "Date")]], "date->x->y")
+    yield prog("a", "Datetime", DTS, [["dt_d_s", cast(cast(a, "Date"), "String")], ["dt_d_dt_s", cast(cast(cast(a, "Date"), "Datetime"), "String")]], "datetime->x->y")
+    yield prog("a", "Float32", [0.5, -2.25, 3.0, None, 1e10], [["f32_f_s", cast(cast(a, "Float64"), "String")], ["f32_i_s", cast(cast(a, "Int64"), "String")], ["f32_f_i", cast(cast(a, "Float64"), "Int64")]], "float32->x->y")
 
     # constant operands of every accepted pair (a literal has a `const` type: dialect special cases must still apply)
     w = {"wrap": True}
